@@ -134,6 +134,54 @@ def desugar_match(modules, rep):
                     break
 
 
+# ---------------------------------------------------------------------------------------------- N16 walrus
+def extract_walrus(modules, rep):
+    """`if (x := E) <op> Y:` with the assignment expression evaluated first and unconditionally in the test is
+    `x = E` followed by `if x <op> Y:` (also for an `elif`, which is an `if` alone in an else block)."""
+    def first_operand(test):
+        """the NamedExpr that is the very first thing the test evaluates, and a setter to replace it"""
+        t = test
+        holder, field = None, None
+        while True:
+            if isinstance(t, ast.NamedExpr):
+                return t, holder, field
+            if isinstance(t, ast.Compare):
+                holder, field, t = t, "left", t.left
+            elif isinstance(t, ast.BoolOp):
+                holder, field, t = t, 0, t.values[0]
+            elif isinstance(t, ast.UnaryOp):
+                holder, field, t = t, "operand", t.operand
+            else:
+                return None, None, None
+
+    for rel, sc, fn in all_functions(modules):
+        changed = True
+        while changed:
+            changed = False
+            for owner, fld, stmts in list(_blocks(fn)):
+                for i, st in enumerate(stmts):
+                    if not isinstance(st, ast.If):
+                        continue
+                    ne, holder, field = first_operand(st.test)
+                    if ne is None or not isinstance(ne.target, ast.Name):
+                        continue
+                    name = ast.copy_location(ast.Name(ne.target.id, ast.Load()), ne)
+                    if holder is None:
+                        st.test = name
+                    elif isinstance(field, int):
+                        holder.values[field] = name
+                    else:
+                        setattr(holder, field, name)
+                    asg = ast.copy_location(ast.Assign([ast.Name(ne.target.id, ast.Store())], ne.value, lineno=st.lineno), st)
+                    ast.fix_missing_locations(asg)
+                    stmts.insert(i, asg)
+                    rep.other.append(f"assignment expression in the test at {rel}:{st.lineno} read as a statement in front of it")
+                    changed = True
+                    break
+                if changed:
+                    break
+
+
 # ---------------------------------------------------------------------------------------------- N7 parameters
 def _params(fn):
     a = fn.args
@@ -477,6 +525,10 @@ def _pure(e, stable) -> bool:
     if isinstance(e, ast.UnaryOp):
         return _pure(e.operand, stable)
     if isinstance(e, ast.Call) and isinstance(e.func, ast.Name) and e.func.id in PURE_CALLS and not e.keywords:
+        return all(_pure(a, stable) for a in e.args)
+    if isinstance(e, ast.Call) and isinstance(e.func, ast.Attribute) and e.func.attr == "get" and len(e.args) == 2 and not e.keywords \
+            and isinstance(e.func.value, ast.Name) and e.func.value.id in stable:
+        # X.get(key, default): a read that cannot fail
         return all(_pure(a, stable) for a in e.args)
     return False
 
